@@ -42,7 +42,7 @@ CLAIMED = {
             "Proof (model level): iteration, size and runtime limits fire exactly as stated, termination is always the explicit `terminated` naming the limit, frequency 0 is the only failing configuration, an exhausted budget stops at the next scheduled check. The call site (top of every loop turn) is in the loop model tied bit for bit to the code under a virtual clock hook; the oracle checks bounds, explicitness, and equality with the unlimited run.",
             "§5 C10"),
     "C11": ("Lean 4 refinement proof of the ordered container to an insertion-ordered association list (abstraction function + representation invariant, all five representations, every history) and exact characterisation of every StateModel getter/setter; bit-exact / textual correspondence run of container histories, state-model operation sequences and collect_features+extend against the real code",
-            "Proof: CompactOrderedHashMap is modelled representation by representation (HashMap as an unordered association list; sorting exactly where the code sorts) and proved to refine an insertion-ordered association list for every history of inserts and overwrites from empty / new (distinct keys) / from_iter at every size: insert appends a new key, overwrites an existing key in place, returns the old value and preserves the invariant (stored indices are exactly 0..len-1, keys distinct); len, is_empty, contains_key, get, get_index, get_pair, keys, iter, indexed_iter, to_vec, into_iter agree with the list; HashMap order is unobservable. StateModel: slots are 0..n-1 bijectively, the initial state has n entries with the declared values in slot order, setters change only their own slot, getters read only their own slot, get-after-set round-trips within C09's 0.1% bound (exactly for equal units), add accumulates exactly in the feature's unit, extend keeps existing slots and appends new ones, codecs round-trip. new with a repeated key violates the invariant (counterexample theorems; finding container/new-duplicate-key), so the theorem about new carries the hypothesis 'keys distinct'. The model is tied to the code by a differential run (all accessors after every operation, doubles bit-exact).",
+            "Proof: CompactOrderedHashMap is modelled representation by representation (HashMap as an unordered association list; sorting exactly where the code sorts) and proved to refine an insertion-ordered association list for every history of inserts and overwrites from empty / new / from_iter at every size: insert appends a new key, overwrites an existing key in place, returns the old value and preserves the invariant (stored indices are exactly 0..len-1, keys distinct); len, is_empty, contains_key, get, get_index, get_pair, keys, iter, indexed_iter, to_vec, into_iter agree with the list; HashMap order is unobservable. StateModel: slots are 0..n-1 bijectively, the initial state has n entries with the declared values in slot order, setters change only their own slot, getters read only their own slot, get-after-set round-trips within C09's 0.1% bound (exactly for equal units), add accumulates exactly in the feature's unit, extend keeps existing slots and appends new ones, codecs round-trip. new refines for EVERY entry list, repeated keys included (the defect container/new-duplicate-key was repaired in /repo 6da9498; its witnesses are now positive theorems and stay in the corpus under the same oracle key); the get_pair guard 'index > len' is proved unobservable in every reachable container. The model is tied to the code by a differential run (all accessors after every operation, doubles bit-exact).",
             "§5 C11, Appendix A.5"),
     "C18": ("Lean 4 proof of Kosaraju's two-pass algorithm over an executable model of scc.rs (functional DFS, white-path specification + finishing-order invariant, second-pass invariant; fuel shown sufficient) for every well-formed graph and every adjacency iteration order; verified executable checker isSccPartition; exhaustive (all digraphs on <= 3 / <= 4 vertices) and structured random correspondence run against the real functions with an independent transitive-closure oracle",
             "Proof: for every well-formed Graph value (any vertex count, self loops, parallel edges, isolated vertices, any keys() order of the adjacency slots; in particular every graph EdgeLoader builds from an edge list whose end points are vertices) the model of all_strongly_connected_componenets returns without error and its result is a list of non-empty blocks whose concatenation is repetition-free and holds exactly the vertices, each block being exactly the set of vertices mutually reachable with any of its members (scc_partition, scc_exactly_one, scc_sound, scc_complete, scc_iff); largest_strongly_connected_component returns a block of maximal length, the first such (largest_is_max, largest_ties_first). All theorems are complete (no _partial). The model is tied to the code by a correspondence run (real Graph values built in-process, keys() order read back from the real container, canonicalised output textually equal) and the real output is additionally judged by an independent closure oracle and by the verified checker (testing). Outside the model: stack depth of the recursive Rust functions, Graph values that are not well formed (correspondence only).",
